@@ -154,7 +154,7 @@ impl Run {
         out.ok
     }
 
-    fn log(&mut self, sink: &mut Sink, parent: usize, call: Value, out: &TxOut) -> usize {
+    pub fn log(&mut self, sink: &mut Sink, parent: usize, call: Value, out: &TxOut) -> usize {
         let line = json!({
             "build": if cfg!(feature = "miniwasm") { "miniwasm" } else { "osmosis" },
             "parent": parent,
@@ -199,10 +199,24 @@ impl Run {
         }
     }
 
+    fn valoper_valid(&self, v: &str) -> bool {
+        let cfg = proj::cfg_of(&self.w);
+        let vp = cfg.pointer("/native_chain_config/validator_address_prefix").and_then(|x| x.as_str()).unwrap_or("");
+        is_bech32_with_prefix(v, vp)
+    }
+
     /// Executes one abstract call and logs it. Returns the outcome.
     pub fn apply(&mut self, sink: &mut Sink, call_in: &Value) -> TxOut {
-        let mut call = call_in.clone();
         let parent = self.at;
+        let (call, out) = self.step(call_in);
+        self.log(sink, parent, call, &out);
+        out
+    }
+
+    /// Executes one abstract call without logging; returns the call completed with the facts the
+    /// harness establishes about its arguments, and the outcome.
+    pub fn step(&mut self, call_in: &Value) -> (Value, TxOut) {
+        let mut call = call_in.clone();
         let m = jstr(&call, "m");
         let sender = self.ad(&jstr(&call, "s"));
         let (n0, l0, f0) = if self.w.instantiated { self.state_nlf() } else { (0, 0, 0) };
@@ -407,14 +421,21 @@ impl Run {
             ),
             "add_validator" => {
                 let v = self.ad(&jstr(&call, "v"));
+                call["vvalid"] = json!(self.valoper_valid(&v));
                 self.w.tx_execute(&sender, &json!({"add_validator": {"new_validator": v}}), &[], &tenv)
             }
             "remove_validator" => {
                 let v = self.ad(&jstr(&call, "v"));
+                call["vvalid"] = json!(self.valoper_valid(&v));
                 self.w.tx_execute(&sender, &json!({"remove_validator": {"validator": v}}), &[], &tenv)
             }
             "transfer_ownership" => {
                 let to = self.ad(&jstr(&call, "to"));
+                {
+                    use cosmwasm_std::Api;
+                    let api = crate::store::ChainApi { prefix: self.w.prefix.clone() };
+                    call["tvalid"] = json!(api.addr_validate(&to).is_ok());
+                }
                 self.w.tx_execute(&sender, &json!({"transfer_ownership": {"new_owner": to}}), &[], &tenv)
             }
             "accept_ownership" => self.w.tx_execute(&sender, &json!({"accept_ownership": {}}), &[], &tenv),
@@ -427,8 +448,7 @@ impl Run {
             }
             other => TxOut { ok: false, err: format!("harness: unknown abstract call {other}"), ..Default::default() },
         };
-        self.log(sink, parent, call, &out);
-        out
+        (call, out)
     }
 
     /// update_config from an abstract description: {"fee": n, "treasury": name|"" , "oracle": ..., ...}
@@ -477,5 +497,20 @@ impl Run {
             msg["batch_period"] = bp.clone();
         }
         json!({"update_config": msg})
+    }
+}
+
+pub fn setup_from_call(call: &Value) -> Setup {
+    let c = &call["cfg"];
+    Setup {
+        same_prefix: c["samePrefix"].as_bool().unwrap_or(false),
+        treasury: !jstr(c, "treasury").is_empty(),
+        oracle: !jstr(c, "oracle").is_empty(),
+        fee: ju(c, "fee"),
+        min_stake: ju(c, "minStake"),
+        batch_period: ju(c, "batchPeriod") as u64,
+        unbonding: ju(c, "unbonding") as u64,
+        monitors: c["monitors"].as_array().map(|a| a.iter().map(|x| x.as_str().unwrap_or("").to_string()).collect()).unwrap_or_default(),
+        sub: { let s = jstr(c, "sub"); if s.is_empty() { "stTIA".to_string() } else { s } },
     }
 }
